@@ -358,7 +358,7 @@ Proof. destruct r2 as [[ms ws c bf q]| |]; reflexivity. Qed.
 
 (* the streaming law of the frame loop: running over d ++ x is running over d and then over
    what d left in the buffer followed by x; after a close frame the rest is dropped *)
-Lemma loop_app f : forall cs p d x, (length (d ++ x) < f)%nat ->
+Lemma loop_app_n n : forall d, (length d <= n)%nat -> forall f cs p x, (length (d ++ x) < f)%nat ->
   match loop f cs p d with
   | ROk r => loop f cs p (d ++ x) =
              if r_closed r then ROk r else seq_res r (loop f cs (r_ps r) (r_buf r ++ x))
@@ -366,42 +366,63 @@ Lemma loop_app f : forall cs p d x, (length (d ++ x) < f)%nat ->
   | RFuel => False
   end.
 Proof.
-  induction f as [|f IH]; intros cs p d x H; [lia|].
-  rewrite app_length in H.
-  destruct d as [|b d'].
-  - cbn [WebSocket.loop app r_closed r_ps r_buf]. now rewrite seq_res_nil.
-  - destruct (parse_frame (b :: d')) as [|fin o pl r|] eqn:E.
-    + rewrite (loop_incomplete (S f)) by (try assumption; lia).
-      cbn [r_closed r_ps r_buf]. now rewrite seq_res_nil.
-    + pose proof (parse_frame_shorter _ _ _ _ _ E) as L.
-      rewrite (loop_step (S f) cs p _ _ _ _ _ ltac:(lia) E).
-      rewrite (loop_step (S f) cs p _ _ _ _ _ ltac:(rewrite app_length; lia) (parse_frame_app _ x _ _ _ _ E)).
-      assert (HI : forall p', match loop (S f) cs p' r with
-                 | ROk r0 => loop (S f) cs p' (r ++ x) =
-                     if r_closed r0 then ROk r0 else seq_res r0 (loop (S f) cs (r_ps r0) (r_buf r0 ++ x))
-                 | RCrash => loop (S f) cs p' (r ++ x) = RCrash
+  induction n as [|n IH]; intros d Hn f cs p x H.
+  - destruct d; [|cbn in Hn; lia]. destruct f as [|f]; [lia|].
+    cbn [WebSocket.loop app r_closed r_ps r_buf]. now rewrite seq_res_nil.
+  - pose proof H as H'. rewrite app_length in H'.
+    destruct d as [|b d'].
+    + destruct f as [|f]; [lia|].
+      cbn [WebSocket.loop app r_closed r_ps r_buf]. now rewrite seq_res_nil.
+    + destruct (parse_frame (b :: d')) as [|fin o pl r|] eqn:E.
+      * rewrite (loop_incomplete f) by (try assumption; lia).
+        cbn [r_closed r_ps r_buf]. now rewrite seq_res_nil.
+      * pose proof (parse_frame_shorter _ _ _ _ _ E) as L.
+        rewrite (loop_step f cs p _ _ _ _ _ ltac:(lia) E).
+        rewrite (loop_step f cs p _ _ _ _ _ H (parse_frame_app _ x _ _ _ _ E)).
+        assert (HI : forall p', match loop f cs p' r with
+                 | ROk r0 => loop f cs p' (r ++ x) =
+                     if r_closed r0 then ROk r0 else seq_res r0 (loop f cs (r_ps r0) (r_buf r0 ++ x))
+                 | RCrash => loop f cs p' (r ++ x) = RCrash
                  | RFuel => False end).
-      { intros p'. specialize (IH cs p' r x ltac:(rewrite app_length; lia)).
-        rewrite (loop_fuel (S f) f) by lia.
-        destruct (loop f cs p' r) as [r0| |] eqn:E0; try exact IH.
-        - rewrite (loop_fuel (S f) f) by (rewrite app_length; lia).
-          destruct (r_closed r0); [exact IH|].
-          rewrite IH. f_equal. apply loop_fuel.
-          + (* the buffer left by a run is not longer than its input *)
-            admit.
-          + admit.
-        - rewrite (loop_fuel (S f) f) by (rewrite app_length; lia). exact IH. }
-      destruct (frame_act cs p fin o pl) as [m p'|w p'|p'| |]; try reflexivity.
-      * specialize (HI p'). destruct (loop (S f) cs p' r) as [r0| |]; cbn [add_msg]; try easy.
-        -- rewrite HI. cbn [r_closed r_ps r_buf]. destruct (r_closed r0); [reflexivity|].
-           destruct (loop (S f) cs (r_ps r0) (r_buf r0 ++ x)) as [y| |]; reflexivity.
-        -- now rewrite HI.
-      * specialize (HI p'). destruct (loop (S f) cs p' r) as [r0| |]; cbn [add_write]; try easy.
-        -- rewrite HI. cbn [r_closed r_ps r_buf]. destruct (r_closed r0); [reflexivity|].
-           destruct (loop (S f) cs (r_ps r0) (r_buf r0 ++ x)) as [y| |]; reflexivity.
-        -- now rewrite HI.
-      * exact (HI p').
-    + now apply parse_frame_total in E.
-Admitted.
+        { intros p'. apply IH; [cbn [length] in Hn; lia|]. rewrite app_length. lia. }
+        destruct (frame_act cs p fin o pl) as [m p'|w p'|p'| |]; try reflexivity.
+        -- specialize (HI p'). destruct (loop f cs p' r) as [r0| |]; cbn [add_msg]; try easy.
+           ++ rewrite HI. cbn [r_closed r_ps r_buf]. destruct (r_closed r0); [reflexivity|].
+              destruct (loop f cs (r_ps r0) (r_buf r0 ++ x)) as [y| |]; reflexivity.
+           ++ now rewrite HI.
+        -- specialize (HI p'). destruct (loop f cs p' r) as [r0| |]; cbn [add_write]; try easy.
+           ++ rewrite HI. cbn [r_closed r_ps r_buf]. destruct (r_closed r0); [reflexivity|].
+              destruct (loop f cs (r_ps r0) (r_buf r0 ++ x)) as [y| |]; reflexivity.
+           ++ now rewrite HI.
+        -- exact (HI p').
+      * now apply parse_frame_total in E.
+Qed.
+
+Lemma loop_app f cs p d x : (length (d ++ x) < f)%nat ->
+  match loop f cs p d with
+  | ROk r => loop f cs p (d ++ x) =
+             if r_closed r then ROk r else seq_res r (loop f cs (r_ps r) (r_buf r ++ x))
+  | RCrash => loop f cs p (d ++ x) = RCrash
+  | RFuel => False
+  end.
+Proof. apply (loop_app_n (length d)). lia. Qed.
+
+(* what a run leaves in the buffer is a suffix of its input, so never longer *)
+Lemma loop_buf_len f : forall cs p d r, loop f cs p d = ROk r -> (length (r_buf r) <= length d)%nat.
+Proof.
+  induction f as [|f IH]; intros cs p d r; [discriminate|]. cbn [WebSocket.loop].
+  destruct d as [|b d']; [intros H; inversion H; cbn; lia|].
+  destruct (parse_frame (b :: d')) as [|fin o pl r'|] eqn:E.
+  - intros H; inversion H; cbn; lia.
+  - apply parse_frame_shorter in E.
+    destruct (frame_act cs p fin o pl) as [m p'|w p'|p'| |]; try discriminate.
+    + destruct (loop f cs p' r') as [r0| |] eqn:E0; cbn [add_msg]; try discriminate.
+      intros H; inversion H; subst; cbn [r_buf]. apply IH in E0. lia.
+    + destruct (loop f cs p' r') as [r0| |] eqn:E0; cbn [add_write]; try discriminate.
+      intros H; inversion H; subst; cbn [r_buf]. apply IH in E0. lia.
+    + intros H. apply IH in H. lia.
+    + intros H; inversion H; cbn; lia.
+  - discriminate.
+Qed.
 
 End Loop.
